@@ -242,6 +242,29 @@ impl Property for C09Prop {
                         return fail("C09:at:captured", format!("`{text}`: {why}"));
                     }
                 }
+                // the index as a statement whose value is discarded (it still fails out of bounds), and the
+                // sequence reached through binders (match arm, if-set) spelled like outer constants
+                let discarded = expected.clone().map(|_| json!(n));
+                let kind_ty = if is_str { "string" } else { "[any]" };
+                for (text, want) in [
+                    (format!("f := (s: {param_ty}, i: int) -> any {{ s[i]; return std.len(s); }}; f({seq_text}, {})", bound_text(Some(i))), &discarded),
+                    (format!("s := *(mut {param_ty} {seq_text}); i := *(mut int {}); r := {{ s[i]; std.len(s) }}; r", bound_text(Some(i))), &discarded),
+                    (format!("f := (s: {param_ty}) -> any {{ if true {{ s[{}]; }}; return std.len(s); }}; f({seq_text})", bound_text(Some(i))), &discarded),
+                    (
+                        format!("s := \"sample\"; a := [9, 9, 9, 9, 9, 9, 9]; at := (v: string|[any], i: int) -> any {{ return match v {{ s: string => (s[i], std.len(s)), a: [any] => (a[i], std.len(a)), }}; }}; at({seq_text}, {})", bound_text(Some(i))),
+                        &both,
+                    ),
+                    (
+                        format!("s := \"sample\"; at := (v: string|[any], i: int) -> any {{ if s: {kind_ty} = v {{ return (s[i], std.len(s)); }} return 0; }}; at({seq_text}, {})", bound_text(Some(i))),
+                        &both,
+                    ),
+                ] {
+                    stats.eval();
+                    let o = run::run_text(&text, true);
+                    if let Err(why) = compare(&o, want, true) {
+                        return fail("C09:at:statement-or-binder", format!("`{text}`: {why}"));
+                    }
+                }
                 // `[v; k][i]`: a repeated constant behind a length known only at run time
                 if !is_str && n > 0 && elems.iter().all(|e| e == &elems[0]) || (!is_str && n == 0) {
                     let v = if n > 0 { lit::to_text(&elems[0]) } else { "7".to_string() };
@@ -372,6 +395,18 @@ impl Property for C09Prop {
                 let o = run::run_text(&text, false);
                 if let Err(why) = compare(&o, &Ok(expected.clone()), true) {
                     return fail("C09:slice:constant-bounds", format!("`{text}`: {why}"));
+                }
+                // the sequence reached through binders spelled like outer constants
+                let kind_ty = if is_str { "string" } else { "[any]" };
+                for text in [
+                    format!("s := \"sample\"; a := [9, 9, 9, 9, 9, 9, 9]; cut := (v: string|[any]) -> any {{ return match v {{ s: string => s{suffix}, a: [any] => a{suffix}, }}; }}; cut({seq_text})"),
+                    format!("s := [8, 8, 8, 8, 8, 8]; cut := (v: string|[any]) -> any {{ if s: {kind_ty} = v {{ return s{suffix}; }} return 0; }}; cut({seq_text})"),
+                ] {
+                    stats.eval();
+                    let o = run::run_text(&text, true);
+                    if let Err(why) = compare(&o, &Ok(expected.clone()), true) {
+                        return fail("C09:slice:binder", format!("`{text}`: {why}"));
+                    }
                 }
                 // inside closures: the sequence and the bounds are names of the enclosing scope
                 let decls: String = [("a", a), ("b", b), ("c", c)].iter().filter_map(|(n, v)| v.map(|v| format!("{n} := *(mut int {}); ", bound_text(Some(v))))).collect();
